@@ -242,6 +242,15 @@ TrReopt ==
                                    ELSE [sw |-> <<>>, st |-> "dead", src |-> 0])
           /\ UNCHANGED <<cur, phase, den, prints>>
 
+(* the owner exchanged the example lists of a clone *)
+TrEdit ==
+  /\ IsEv("edit") /\ Adv
+  /\ IF phase = "loaded" /\ e.from + 1 \in DOMAIN objs /\ e.obj = Len(objs) /\ e.out = "ok" /\ objs[e.from + 1].st = "ok"
+     THEN EditExamples(e.from, e.obj, e.out) /\ Good
+     ELSE /\ Bad("edit_protocol", [out |-> e.out, from |-> e.from])
+          /\ objs' = Append(objs, [sw |-> <<>>, st |-> "dead", src |-> 0])
+          /\ UNCHANGED <<cur, phase, den, prints>>
+
 (* C16: a match through a recording document.  The verdict is an ordinary observation; every    *)
 (* find(key) the engine made, on the root or on a nested object, must be for a key the rule     *)
 (* writes for that position.                                                                  *)
@@ -269,7 +278,7 @@ TrIcLoad ==
   /\ IF e.out \notin {"panic", "loop"} /\ (e.out = "ok") = (phase = "loaded") THEN Good
      ELSE Bad(IF e.out \in {"panic", "loop"} THEN "load_panic" ELSE "ic_load_differs", [out |-> e.out])
 
-TrNext == TrIcLoad \/ TrFinds \/ TrAlt \/ TrReopt \/ TrFound \/ TrIdent \/ TrFload \/ TrCore \/ TrCase \/ TrSkip \/ TrLoad \/ TrLoad2 \/ TrOpt \/ TrMatch \/ TrTri \/ TrValidate \/ TrSer \/ TrReload
+TrNext == TrEdit \/ TrIcLoad \/ TrFinds \/ TrAlt \/ TrReopt \/ TrFound \/ TrIdent \/ TrFload \/ TrCore \/ TrCase \/ TrSkip \/ TrLoad \/ TrLoad2 \/ TrOpt \/ TrMatch \/ TrTri \/ TrValidate \/ TrSer \/ TrReload
 
 TrSpec == TrInit /\ [][TrNext]_tvars
 
